@@ -55,4 +55,9 @@ def generate(rng, tier, idx):
             ops.append(gen_ti.valid_mutation(K, rng))
         if rng.random() < 0.3:
             ops.append({"op": "dumps"})
+        elif rng.random() < 0.3:
+            o = {"op": "ti_serialize"}
+            if rng.random() < 0.3:
+                o["main_variant"] = pick(rng, keys)
+            ops.append(o)
     return {"machine": "M-TI", "cfg": {"simset": pick(rng, ["insertion", "shuffle", "reverse"])}, "ops": ops}
